@@ -93,6 +93,9 @@ var c09Roles = []string{
 	"var r25 = {Q}V.F",
 	"func r26() {\n\tv := {Q}V\n\tv.F = {Q}K\n\t_ = v.M()\n}",
 	"func (R8b) M2() {Q}T { return {Q}V }\n\ntype R8b struct{}",
+	// uses of type parameters, of a function-local constant and type, of a generic local type
+	"func r27[P any](p P) P {\n\tvar q P\n\t_ = q\n\treturn p\n}\n\ntype R27[E any] struct{ e E }\n\nfunc (r R27[E]) get() E { return r.e }",
+	"func r28() {Q}N {\n\tconst step = 2\n\ttype acc {Q}N\n\tvar a acc = step\n\treturn {Q}N(a) + step\n}",
 }
 
 // shadowing snippets: {N} is the name the import is bound to
@@ -167,7 +170,7 @@ func init() {
 	core.Register(&core.Prop{
 		ID:    "C09",
 		Level: "model_checking",
-		Rule: "typed worlds: a dependency under 5 paths (plain, dotted, vendored, nested-vendored, root vendor directory) x import style {plain, alias, dot} x every role of a 28-role catalogue singly x 5 shadowing modes x with/without a second import of an equally named package x with/without two blank imports x (single roles) 3 locations of the local package itself (plain; inside a vendor directory with the Decorator told the full path; same, told the stripped path), and every ordered pair of roles (quick: 2 shadowing modes; thorough: all 5, with/without the second import); " +
+		Rule: "typed worlds: a dependency under 5 paths (plain, dotted, vendored, nested-vendored, root vendor directory) x import style {plain, alias, dot} x every role of a 30-role catalogue singly (each file also decorated with ResolveLocalPath: local package-level objects carry the local path, function-local objects and type parameters none) x 5 shadowing modes x with/without a second import of an equally named package x with/without two blank imports x (single roles) 3 locations of the local package itself (plain; inside a vendor directory with the Decorator told the full path; same, told the stripped path), and every ordered pair of roles (quick: 2 shadowing modes; thorough: all 5, with/without the second import); " +
 			"only files that type-check are in the quantifier; the same annotation is required from DecorateFile, from DecorateNode on every declaration alone and on a package node, from NewDecoratorFromPackage and from a Decorator configured through its fields; oracle computed from go/types: an identifier carries the vendor-stripped path of its object's package iff the object is a package-level object of another package, else none (qualified selectors collapse onto one identifier); " +
 			"the syntax-only resolver must agree on files without dot-imports and without shadowing, and must return an error for dot-imports and for two imports bound to one name, also when the same resolver instance is asked again about the same file; state = generated file; non-trivial = file with at least one remote reference",
 		Assumptions: []string{"go/types of this toolchain defines what an identifier denotes", "programs range over the role catalogue"},
@@ -422,6 +425,32 @@ func c09Check(cs c09Case) (out core.Outcome, applicable bool, remote int) {
 				role = "qualifier"
 			}
 			return fail(fmt.Sprintf("gotypes-path:%s:want=%v", role, p != ""), "%s %s at %s: types-based resolver gave path %q, go/types says %q", role, id.Name, chk.Fset.Position(id.Pos()), di.Path, p)
+		}
+	}
+	// the same file with Decorator.ResolveLocalPath set: package-level objects of the local package carry the local
+	// path as well; everything declared inside a function (variables, constants, types, type parameters, labels),
+	// fields and methods still carry none
+	{
+		decL := decorator.NewDecoratorWithImports(chk.Fset, c09Locals[cs.Local].Given, gotypes.New(chk.Info.Uses))
+		decL.ResolveLocalPath = true
+		var errL error
+		if p := guard(func() { _, errL = decL.DecorateFile(af) }); p != "" || errL != nil {
+			return fail("resolve-local-path-fails", "decoration with ResolveLocalPath: panic %q error %v", p, errL)
+		}
+		for _, id := range ordered {
+			p := want[id]
+			if obj := chk.Info.Uses[id]; p == "" && obj != nil && obj.Pkg() == chk.Pkg && obj.Parent() == chk.Pkg.Scope() {
+				if _, isPkgName := obj.(*types.PkgName); !isPkgName {
+					p = stripVendorRef(chk.Pkg.Path())
+				}
+			}
+			di, ok := decL.Dst.Nodes[id].(*dst.Ident)
+			if !ok {
+				return fail("ident-unmapped", "ResolveLocalPath: identifier %s has no dst identifier", id.Name)
+			}
+			if di.Path != p {
+				return fail(fmt.Sprintf("gotypes-path:resolve-local-path:want=%v", p != ""), "with ResolveLocalPath, identifier %s at %s: path %q, go/types says %q (only package-level objects carry a path)", id.Name, chk.Fset.Position(id.Pos()), di.Path, p)
+			}
 		}
 	}
 	// qualified selectors must have collapsed onto one identifier carrying the selected name
